@@ -535,6 +535,12 @@ pub fn run_property(id: &str, tier: Tier) -> i32 {
     if let Some(p) = script_props(id) {
         return run_script_prop(p, tier);
     }
+    match id {
+        "C11" => return crate::numerics::run_c11(tier),
+        "C12" => return crate::numerics::run_c12(tier),
+        "C13" => return crate::c13::run_c13(tier),
+        _ => {}
+    }
     eprintln!("unknown property {id}");
     2
 }
@@ -612,6 +618,33 @@ pub fn replay_file(path: &str) -> i32 {
                 }
             };
         }
+    }
+    let simple: Option<Result<(), Fail>> = match engine.as_str() {
+        "C11-pairs" => Some(crate::numerics::replay_c11(&v["case"])),
+        "C12-random" => Some(crate::numerics::replay_c12(&v["case"])),
+        e if e.starts_with("C13-") => crate::c13::replay(e, &v["case"]),
+        _ => None,
+    };
+    if let Some(r) = simple {
+        return match r {
+            Err(Fail::Violation(viol)) => {
+                println!("violation: [{}] {}", viol.signature, viol.message);
+                println!("VIOLATION property={prop} replay={path}");
+                1
+            }
+            Err(Fail::Infra(m)) => {
+                eprintln!("INCONCLUSIVE: {m}");
+                2
+            }
+            _ => {
+                println!("replay of {path}: no violation");
+                0
+            }
+        };
+    }
+    if engine.ends_with("-enumerated") || engine.ends_with("-e2e") || engine.ends_with("-exhaustive") {
+        // deterministic enumerations carry no case: re-run the quick tier of the property
+        return run_property(&prop, Tier::Quick);
     }
     eprintln!("no replay engine for property {prop:?} engine {engine:?}");
     2
